@@ -21,6 +21,31 @@ use crate::render::*;
 use crate::view::dump_kind;
 
 // ---------------------------------------------------------------------------------------------
+// `(probe)`
+
+/// The `(probe)` pseudo-call: `calculate_size()` on the builder as configured so far and, if
+/// that is `Ok(n)` with `n <= 1 << 20`, `write_into` an `n`-byte buffer; each under
+/// `catch_unwind`, results discarded. The builder is only borrowed: the caller goes on applying
+/// the remaining calls to it.
+fn probe<T: RtcpPacketWriter>(t: &T) {
+    const MAX: usize = 1 << 20;
+    if let Some(Ok(n)) = guard(|| t.calculate_size()) {
+        if n <= MAX {
+            let mut buf = vec![0x5au8; n];
+            let _ = guard(|| t.write_into(&mut buf));
+        }
+    }
+}
+
+/// `$b` after `(probe)`.
+macro_rules! probed {
+    ($b:ident) => {{
+        probe(&$b);
+        $b
+    }};
+}
+
+// ---------------------------------------------------------------------------------------------
 // leaf builders
 
 fn mk_rb(rb: &Rb) -> ReportBlockBuilder {
@@ -64,6 +89,7 @@ fn mk_app<'a>(ssrc: u32, name: &'a str, calls: &'a [AppCall]) -> AppBuilder<'a> 
     let mut b = App::builder(ssrc, name);
     for c in calls {
         b = match c {
+            AppCall::Probe => probed!(b),
             AppCall::Padding(n) => b.padding(*n),
             AppCall::Subtype(n) => b.subtype(*n),
             AppCall::Data(d) => b.data(d),
@@ -76,6 +102,7 @@ fn mk_bye(calls: &[ByeCall]) -> ByeBuilder<'_> {
     let mut b = Bye::builder();
     for c in calls {
         b = match c {
+            ByeCall::Probe => probed!(b),
             ByeCall::Padding(n) => b.padding(*n),
             ByeCall::AddSource(n) => b.add_source(*n),
             ByeCall::Reason(s) => b.reason(s.as_str()),
@@ -89,6 +116,7 @@ fn mk_rr(ssrc: u32, calls: &[RrCall]) -> ReceiverReportBuilder {
     let mut b = ReceiverReport::builder(ssrc);
     for c in calls {
         b = match c {
+            RrCall::Probe => probed!(b),
             RrCall::Padding(n) => b.padding(*n),
             RrCall::AddRb(rb) => b.add_report_block(mk_rb(rb)),
         };
@@ -100,6 +128,7 @@ fn mk_sr(ssrc: u32, calls: &[SrCall]) -> SenderReportBuilder {
     let mut b = SenderReport::builder(ssrc);
     for c in calls {
         b = match c {
+            SrCall::Probe => probed!(b),
             SrCall::Padding(n) => b.padding(*n),
             SrCall::Ntp(n) => b.ntp_timestamp(*n),
             SrCall::Rtp(n) => b.rtp_timestamp(*n),
@@ -115,6 +144,7 @@ fn mk_sdes(calls: &[SdesCall]) -> SdesBuilder<'_> {
     let mut b = Sdes::builder();
     for c in calls {
         b = match c {
+            SdesCall::Probe => probed!(b),
             SdesCall::Padding(n) => b.padding(*n),
             SdesCall::AddChunk(ch) => b.add_chunk(mk_chunk(ch)),
         };
@@ -126,6 +156,7 @@ fn mk_unknown<'a>(type_: u8, data: &'a [u8], calls: &[UnkCall]) -> UnknownBuilde
     let mut b = Unknown::builder(type_, data);
     for c in calls {
         b = match c {
+            UnkCall::Probe => probed!(b),
             UnkCall::Padding(n) => b.padding(*n),
             UnkCall::Count(n) => b.count(*n),
         };
@@ -133,26 +164,35 @@ fn mk_unknown<'a>(type_: u8, data: &'a [u8], calls: &[UnkCall]) -> UnknownBuilde
     b
 }
 
-fn mk_nack(seqs: &[u16]) -> NackBuilder {
+fn mk_nack(calls: &[FciCall<u16>]) -> NackBuilder {
     let mut b = Nack::builder();
-    for s in seqs {
-        b = b.add_rtp_sequence(*s);
+    for c in calls {
+        b = match c {
+            FciCall::Probe => probed!(b),
+            FciCall::Add(s) => b.add_rtp_sequence(*s),
+        };
     }
     b
 }
 
-fn mk_fir(entries: &[(u32, u8)]) -> FirBuilder {
+fn mk_fir(calls: &[FciCall<(u32, u8)>]) -> FirBuilder {
     let mut b = Fir::builder();
-    for (ssrc, seq) in entries {
-        b = b.add_ssrc(*ssrc, *seq);
+    for c in calls {
+        b = match c {
+            FciCall::Probe => probed!(b),
+            FciCall::Add((ssrc, seq)) => b.add_ssrc(*ssrc, *seq),
+        };
     }
     b
 }
 
-fn mk_sli(entries: &[(u16, u16, u8)]) -> SliBuilder {
+fn mk_sli(calls: &[FciCall<(u16, u16, u8)>]) -> SliBuilder {
     let mut b = Sli::builder();
-    for (first, number, pid) in entries {
-        b = b.add_lost_macroblock(*first, *number, *pid);
+    for c in calls {
+        b = match c {
+            FciCall::Probe => probed!(b),
+            FciCall::Add((first, number, pid)) => b.add_lost_macroblock(*first, *number, *pid),
+        };
     }
     b
 }
@@ -162,8 +202,10 @@ fn mk_rpsi(calls: &[RpsiCall]) -> RpsiBuilder<'_> {
     let mut b = Rpsi::builder();
     for c in calls {
         b = match c {
+            RpsiCall::Probe => probed!(b),
             RpsiCall::PayloadType(n) => b.payload_type(*n),
             RpsiCall::NativeData(d, k) => b.native_data(&d[..], *k),
+            RpsiCall::NativeDataVec(d, k) => b.native_data(d.clone(), *k),
             RpsiCall::NativeDataOwned(d, k) => b.native_data_owned(&d[..], *k),
         };
     }
@@ -175,8 +217,11 @@ fn mk_rpsi_static(calls: &[RpsiCall]) -> RpsiBuilder<'static> {
     let mut b: RpsiBuilder<'static> = Rpsi::builder();
     for c in calls {
         b = match c {
+            RpsiCall::Probe => probed!(b),
             RpsiCall::PayloadType(n) => b.payload_type(*n),
-            RpsiCall::NativeData(d, k) => b.native_data(d.clone(), *k),
+            RpsiCall::NativeData(d, k) | RpsiCall::NativeDataVec(d, k) => {
+                b.native_data(d.clone(), *k)
+            }
             RpsiCall::NativeDataOwned(d, k) => b.native_data_owned(&d[..], *k),
         };
     }
@@ -189,6 +234,7 @@ fn apply_tfb<'x>(
 ) -> TransportFeedbackBuilder<'x> {
     for c in calls {
         b = match c {
+            FbCall::Probe => probed!(b),
             FbCall::SenderSsrc(n) => b.sender_ssrc(*n),
             FbCall::MediaSsrc(n) => b.media_ssrc(*n),
             FbCall::Padding(n) => b.padding(*n),
@@ -200,6 +246,7 @@ fn apply_tfb<'x>(
 fn apply_pfb<'x>(mut b: PayloadFeedbackBuilder<'x>, calls: &[FbCall]) -> PayloadFeedbackBuilder<'x> {
     for c in calls {
         b = match c {
+            FbCall::Probe => probed!(b),
             FbCall::SenderSsrc(n) => b.sender_ssrc(*n),
             FbCall::MediaSsrc(n) => b.media_ssrc(*n),
             FbCall::Padding(n) => b.padding(*n),
@@ -250,7 +297,9 @@ fn collect_fcis<'a>(b: &'a B, arena: &mut Vec<FciB<'a>>) {
         B::Pb(inner) => collect_fcis(inner, arena),
         B::Compound(members) => {
             for m in members {
-                collect_fcis(m, arena);
+                if let Member::Packet(m) = m {
+                    collect_fcis(m, arena);
+                }
             }
         }
         _ => {}
@@ -404,11 +453,15 @@ fn build_basic<'r, V: BasicVisitor<'r>>(b: &'r B, ctx: &Ctx<'r>, v: V) -> V::Out
 fn custom_visit<'r, const PT: u8, const MIN: usize, V: Visitor<'r>>(
     v: V,
     body: &'r [u8],
-    calls: &[u8],
+    calls: &[CustomCall],
 ) -> V::Out {
     let mut b = Custom::<PT, MIN>::builder(body);
-    for p in calls {
-        b = b.padding(*p);
+    for c in calls {
+        b = match c {
+            CustomCall::Probe => probed!(b),
+            CustomCall::Padding(p) => b.padding(*p),
+            CustomCall::PadStyleSome0 => b.pad_style_some0(),
+        };
     }
     v.visit(b)
 }
@@ -419,7 +472,10 @@ fn build_with<'r, V: Visitor<'r>>(b: &'r B, ctx: &Ctx<'r>, v: V) -> V::Out {
         B::Compound(members) => {
             let mut cb = Compound::builder();
             for m in members {
-                cb = build_with(m, ctx, AddTo(cb));
+                cb = match m {
+                    Member::Probe => probed!(cb),
+                    Member::Packet(m) => build_with(m, ctx, AddTo(cb)),
+                };
             }
             v.visit(cb)
         }
